@@ -150,13 +150,20 @@ func (AggValueMonitor) Post(e *Explorer, before, w *World, pre interface{}, ev *
 }
 
 func checkC06(rc *RunCtx) {
-	// stateful part: the aggregates the chain produces along the oracle family of skeletons (+ deviations)
-	if rc.Replay == nil || isSkeleton(rc.Replay.Scenario) {
+	// stateful part: the aggregates the chain produces along the oracle family of skeletons (+ deviations); it runs after
+	// the enumeration because it is the part a deadline may cut short
+	stateful := func() {
 		runSkeletons(rc, []Monitor{AggValueMonitor{}}, kOf(rc), "round", "tip-no-report", "governance", "dispute-sibling", "mode-after-median", "deposit-closing")
-		if rc.Replay != nil {
-			return
-		}
 	}
+	if rc.Replay != nil && isSkeleton(rc.Replay.Scenario) {
+		stateful()
+		return
+	}
+	defer func() {
+		if rc.Replay == nil {
+			stateful()
+		}
+	}()
 	w := NewWorld(Config{})
 	k := w.App.OracleKeeper
 	ctx := w.Ctx
